@@ -874,7 +874,8 @@ def install_std_stubs(E):
     # std type_info hierarchy for externally defined typeinfos
     STD_BASE = {'_ZTISt13runtime_error': '_ZTISt9exception', '_ZTISt11logic_error': '_ZTISt9exception', '_ZTISt12out_of_range': '_ZTISt11logic_error',
                 '_ZTISt12length_error': '_ZTISt11logic_error', '_ZTISt16invalid_argument': '_ZTISt11logic_error', '_ZTISt9bad_alloc': '_ZTISt9exception',
-                '_ZTISt8bad_cast': '_ZTISt9exception', '_ZTISt17bad_function_call': '_ZTISt9exception', '_ZTISt9exception': None}
+                '_ZTISt8bad_cast': '_ZTISt9exception', '_ZTISt17bad_function_call': '_ZTISt9exception', '_ZTISt9exception': None,
+                '_ZTINSt8ios_base7failureB5cxx11E': '_ZTISt12system_error', '_ZTISt12system_error': '_ZTISt13runtime_error', '_ZTISt12domain_error': '_ZTISt11logic_error', '_ZTISt14overflow_error': '_ZTISt13runtime_error', '_ZTISt11range_error': '_ZTISt13runtime_error'}
     for k in STD_BASE:
         if ('@' + k) not in E.mod.globals:
             E.mod.globals['@' + k] = dict(name='@' + k, type=ArrT(24, IntT(8)), init=None, const=True, align=8, alias=None)
